@@ -88,12 +88,18 @@ GrpcCodes   == 0..16 \cup {17, 42, 2147483647}
 \* "gempty": status OK, the reply message is empty (no field set); "ggarbage": status OK, the message bytes cannot be
 \* decoded; "gkillmid": the response headers arrive, then the connection is closed (the stream ends in the middle).
 \* (Trailers-only responses are what every error code letter is: the server answers an error without headers or message.)
-GrpcLetters == {[l |-> "code", code |-> c] : c \in GrpcCodes}
+\* "w*": status OK and a reply whose TYPE is one of protobuf's well-known types (a second service of the target, every method
+\* takes google.protobuf.Empty): Empty, Timestamp, Duration, StringValue, Int64Value, BoolValue, BytesValue, Struct,
+\* ListValue, Any.  A client built on dynamic messages gets the generated type for these, and their JSON form is special:
+\* an object only for Empty, Struct and Any (protobuf JSON mapping); a string / number / bool / array for the others.
+WktLetters  == {"wempty", "wtime", "wdur", "wstring", "wint64", "wbool", "wbytes", "wstruct", "wlist", "wany"}
+WktObject   == {"wempty", "wstruct", "wany"}
+GrpcLetters == {[l |-> "code", code |-> c] : c \in GrpcCodes} \cup {Plain(l) : l \in WktLetters}
                \cup {Plain("gbig"), Plain("gtoobig"), Plain("gslow"), Plain("gkill"), Plain("gempty"), Plain("ggarbage"), Plain("gkillmid")}
                \cup {Plain(l) : l \in AvailLetters}
-GrpcOK(x)   == (x.l = "code" /\ x.code = 0) \/ x.l \in {"gbig", "gempty"}
+GrpcOK(x)   == (x.l = "code" /\ x.code = 0) \/ x.l \in {"gbig", "gempty"} \cup WktLetters
 \* the reply message carries the greeting the grpc/scenario runs assert on
-GrpcGreets(x) == GrpcOK(x) /\ x.l # "gempty"
+GrpcGreets(x) == GrpcOK(x) /\ x.l # "gempty" /\ x.l \notin WktLetters
 
 \* ---------------------------------------------------------------- postprocessors of step "a" of a scenario gun
 Posts == {"none", "jsonpath", "header_substr", "xpath", "assert", "all"}
@@ -164,7 +170,12 @@ GrpcOutcome(x) == IF GrpcOK(x) THEN Smp(200, FALSE, FALSE) ELSE Smp(GE400, FALSE
 \* grpc/scenario: a has assert/response(status_code 200, payload ["Hello"]); a failed assertion ends the shot,
 \* its sample carries the received code
 \* (an OK reply without the greeting fails the payload assertion: the sample keeps the code 200, the shot ends)
-GrpcScenOutcome(x) == IF GrpcGreets(x) THEN <<Smp(200, FALSE, FALSE), Smp(200, FALSE, FALSE)>>
+\* a well-known-type reply has no greeting: for these letters step a asserts the status only, and the reply goes on into the
+\* step's variables (a JSON object).  A reply whose JSON form is no object cannot become variables: the step's sample keeps the
+\* code 200, the shot ends there - never the run.
+GrpcScenOutcome(x) == IF x.l \in WktLetters
+                      THEN (IF x.l \in WktObject THEN <<Smp(200, FALSE, FALSE), Smp(200, FALSE, FALSE)>> ELSE <<Smp(200, FALSE, FALSE)>>)
+                      ELSE IF GrpcGreets(x) THEN <<Smp(200, FALSE, FALSE), Smp(200, FALSE, FALSE)>>
                       ELSE IF GrpcOK(x) THEN <<Smp(200, FALSE, FALSE)>>
                       ELSE <<Smp(GE400, FALSE, FALSE)>>
 
@@ -219,8 +230,9 @@ Shot(i) == /\ pc[i] = "shoot" /\ poolErr = "none"
 
 \* which of the unchecked uses below the negative control switches on (all; the cfg of a negative control that is to prove ONE
 \* rule non-vacuous substitutes a singleton: CONSTANT PanicKinds <- PanicAnnounced)
-PanicKinds == {"substr", "idx", "announced", "grpccode", "tls"}
+PanicKinds == {"substr", "idx", "announced", "grpccode", "wkt", "tls"}
 PanicAnnounced == {"announced"}
+PanicWkt == {"wkt"}
 \* negative control: response-derived data used unchecked - Shoot panics, instance.Run recovers it into
 \* "shoot panic", the pool fails and every instance is cancelled
 ShotPanic(i) == /\ RespCanPanic /\ pc[i] = "shoot" /\ poolErr = "none"
@@ -232,6 +244,8 @@ ShotPanic(i) == /\ RespCanPanic /\ pc[i] = "shoot" /\ poolErr = "none"
                       /\ cur[i].l \in LenBodyLetters
                    \* or: a table lookup with the peer's gRPC status code
                    \/ "grpccode" \in PanicKinds /\ run.gun \in {"grpc", "grpc/scenario"} /\ cur[i].l = "code" /\ cur[i].code > 16
+                   \* or: the reply taken for a dynamic message whatever its type (the scenario gun turns an OK reply into variables)
+                   \/ "wkt" \in PanicKinds /\ run.gun = "grpc/scenario" /\ cur[i].l \in WktLetters
                    \* or: every TLS alert of the peer mistaken for the documented "target has no HTTP/2"
                    \/ "tls" \in PanicKinds /\ run.gun \in {"http2", "http2/scenario"} /\ cur[i].l \in TlsLetters
                 /\ poolErr' = "panic"
